@@ -26,6 +26,7 @@ from sa.consts import fold, NotConst, module_env
 from sa.dataflow import Provenance, ControlDependence, ReachingDefs, target_names, node_defs
 from sa.loader import walk_shallow, walk_expr_shallow
 from sa.resolve import get_resolver
+from rules.common import host_sections, host_data, read_family
 
 LETTERS = "VWCPOA"
 READ = "las.LASFile.read"
@@ -383,7 +384,7 @@ def _consumer_loops(p):
         out.append((fe, loop, "reference-engine", counter, linevar, direct, start, {"%s[1]" % lp}, {"%s[0]" % lp}))
     # ~Other (free text) loop: in LASFile.read or in a private helper of the las module it calls
     fr = p.func(READ)
-    cands = [fr] + [f for q, f in sorted(p.functions.items()) if f.module.name == "las" and f.cls is None and f.parent is None]
+    cands = list(read_family(p)) + [f for q, f in sorted(p.functions.items()) if f.module.name == "las" and f.cls is None and f.parent is None]
     found_other = False
     for cf in cands:
         if found_other:
@@ -703,7 +704,7 @@ def _letter_atoms(t, var, defs=None):
 
 def rule_case(ctx):
     p = ctx.p
-    fr = p.func(READ)
+    fr = host_sections(p)
     sp = _section_tuple_names(fr)
     targets = [(p.func("reader.determine_section_type"), None), (fr, {sp["title"]}),
                (p.func("reader.SectionParser.__init__"), {"title"})]
@@ -795,7 +796,7 @@ def _steer_stores(fr):
 
 def rule_steer(ctx):
     p = ctx.p
-    fr = p.func(READ)
+    fr = host_sections(p)
     sp = _section_tuple_names(fr)
     tv = sp["title"]
     cfg = build_cfg(p, fr)
@@ -845,7 +846,8 @@ def rule_steer(ctx):
 
 def rule_title_pred(ctx):
     p = ctx.p
-    targets = [p.func("reader.find_sections_in_file"), p.func("reader.parse_header_items_section"), p.func(READ)]
+    targets = [p.func("reader.find_sections_in_file"), p.func("reader.parse_header_items_section")] + [
+        f for f in read_family(p) if f.cls is not None]
     targets += [f for q, f in sorted(p.functions.items()) if f.module.name == "las" and f.cls is None and f.parent is None
                 and not isinstance(f.node, ast.Lambda)]
     n = 0
@@ -867,6 +869,20 @@ def rule_title_pred(ctx):
                               "title test is startswith('~') on a stripped line, like the section scanner's",
                               "`%s` tests the unstripped line: an indented title is recognised by the scanner but not "
                               "here, so the title is swallowed into the section and its last line is lost" % unparse(c))
+    # the title handed to SectionParser must be the stripped title too (the scanner accepts indented titles)
+    fi = p.func("reader.parse_header_items_section")
+    cfg = build_cfg(p, fi)
+    rd = ReachingDefs(cfg)
+    for node in cfg.nodes:
+        if node.ast is None or node.kind != "stmt":
+            continue
+        for c in walk_expr_shallow(node.ast):
+            if isinstance(c, ast.Call) and isinstance(c.func, ast.Name) and c.func.id == "SectionParser" and c.args:
+                ok = _fully_stripped(c.args[0], cfg, rd, node.id)
+                ctx.check(ok, "SEC.TITLE-PRED", fi.qual + "#parser-title", fi, c,
+                          "the section title given to SectionParser is fully stripped",
+                          "SectionParser receives the title `%s` without a full strip: an indented '  ~Well' title is filed under "
+                          "Well but parsed with the rules of an unknown section (1.2 value/description order lost)" % unparse(c.args[0]))
     ctx.floor("SEC.TITLE-PRED", 4)
 
 
@@ -880,7 +896,11 @@ def _fully_stripped(expr, cfg, rd, at, depth=0, _seen=None):
     if isinstance(expr, ast.Call) and isinstance(expr.func, ast.Attribute):
         a = expr.func.attr
         if a == "strip" and (not expr.args or (isinstance(expr.args[0], ast.Constant) and expr.args[0].value is None)):
-            return True
+            # a full strip of the text itself (or of a strip/replace chain over it); a slice such as line[:-1] drops characters
+            recv = expr.func.value
+            while isinstance(recv, ast.Call) and isinstance(recv.func, ast.Attribute) and recv.func.attr in ("strip", "rstrip", "lstrip", "replace"):
+                recv = recv.func.value
+            return isinstance(recv, (ast.Name, ast.Call, ast.Attribute))
         if a == "lstrip" and not expr.args:
             inner = expr.func.value
             return _rstripped(inner, cfg, rd, at, depth + 1) or _fully_stripped(inner, cfg, rd, at, depth + 1, _seen)
@@ -924,7 +944,7 @@ def _rstripped(expr, cfg, rd, at, depth):
 
 def rule_route(ctx):
     p = ctx.p
-    fr = p.func(READ)
+    fr = host_sections(p)
     sp = _section_tuple_names(fr)
     tv = sp["title"]
     cfg = build_cfg(p, fr)
@@ -979,6 +999,7 @@ def rule_route(ctx):
     problems = []
     derived_r = _title_derived(fr, tv)
     derived_p = _title_derived(sp_init, "title")
+    n_eval = 0
     for L in LETTERS[:4] + "TXO":
         for title in ("~" + L, "~" + L.lower(), "~" + L + "ection info", "~" + L.lower() + "ection info"):
             if L == "O":
@@ -989,8 +1010,12 @@ def rule_route(ctx):
                     ok_ = True
                     for t, pol in tests:
                         free = {n.id for n in ast.walk(t) if isinstance(n, ast.Name)}
+                        dd = derived_r if tvar == tv else derived_p
+                        relevant = {tvar} | {k for k, v_ in dd.items() if _mentions(v_, tvar, dd)} | set(extra)
+                        if not (free & relevant):
+                            continue      # a test about something else (LiDAR signature, ignore_data ...): not part of the routing
                         try:
-                            v = bool(_fold_title(t, tvar, title, extra, defs=(derived_r if tvar == tv else derived_p)))
+                            v = bool(_fold_title(t, tvar, title, extra, defs=dd))
                         except NotConst:
                             # tests not about the title (section_type == ..., version == 3.0 ...): assume the header-items, non-LAS3 case
                             v = _assume(t, pol)
@@ -1009,6 +1034,7 @@ def rule_route(ctx):
             pk = pick(kinds, "title", {"version": 2.0, "is_like_las3_section": False})
             if rk is None or pk is None:
                 continue
+            n_eval += 1
             if len(rk) != 1 or len(pk) != 1:
                 problems.append("title %r: %d routing stores and %d parser kinds are selected" % (title, len(rk or []), len(pk or [])))
                 continue
@@ -1024,9 +1050,11 @@ def rule_route(ctx):
             else:
                 if key in std or key != title[1:]:
                     problems.append("a custom section titled %r is stored under sections[%r] instead of its own title" % (title, key))
+    if n_eval < 12:
+        raise AnalysisError("SEC.ROUTE: only %d probe titles could be evaluated (routing or parser tests not foldable)" % n_eval)
     ctx.check(not problems, "SEC.ROUTE", READ + "#route-vs-parser", fr, sp["loop"],
-              "for every probe title the key under which a header section is stored agrees with the kind SectionParser "
-              "parses it as; custom sections are kept under their own title",
+              "for all %d probe titles the key under which a header section is stored agrees with the kind SectionParser "
+              "parses it as; custom sections are kept under their own title" % n_eval,
               "; ".join(dict.fromkeys(problems)))
     ctx.floor("SEC.ROUTE", 2)
 
@@ -1048,7 +1076,12 @@ def rule_reseek(ctx):
     with no other consumer of the file in between"""
     p = ctx.p
     r = get_resolver(p)
-    fr = p.func(READ)
+    for fr in read_family(p):
+        _reseek_in(ctx, p, r, fr)
+    ctx.floor("SEC.RESEEK", 4)
+
+
+def _reseek_in(ctx, p, r, fr):
     cfg = build_cfg(p, fr)
     consumers_q = {"reader.parse_header_items_section", "reader.inspect_data_section",
                    "reader.read_data_section_iterative_normal_engine"}
@@ -1080,24 +1113,24 @@ def rule_reseek(ctx):
                 elif isinstance(c.func, ast.Attribute) and c.func.attr in ("read", "readline", "readlines") and isinstance(c.func.value, ast.Name) and "file" in c.func.value.id:
                     other_cons.append(node.id)
     all_cons = set([c[0] for c in cons] + other_cons)
-    witnesses = _explore_dirty(cfg, set(seeks), all_cons)
+    # a private helper is entered with the position its caller established (its call site is checked as a consumer)
+    witnesses = _explore_dirty(cfg, set(seeks), all_cons, dirty_at_entry=(fr.qual == READ))
     for nid, call, what in cons:
-        site = "%s#reseek(%s@%d)" % (READ, what.split(".")[-1], sum(1 for c in cons if c[0] <= nid and c[2] == what))
+        site = "%s#reseek(%s@%d)" % (fr.qual, what.split(".")[-1], sum(1 for c in cons if c[0] <= nid and c[2] == what))
         bad = witnesses.get(nid)
         ctx.check(bad is None, "SEC.RESEEK", site, fr, call,
                   "the file is re-positioned with seek(<section offset>) on every path into this consumer",
                   "%s can be entered with the file positioned wherever a previous consumer left it (no seek to the "
                   "section offset in between): it reads lines of the wrong section" % what,
                   cfg.describe_path(bad) if bad else None)
-    ctx.floor("SEC.RESEEK", 4)
 
 
-def _explore_dirty(cfg, seeks, consumers):
+def _explore_dirty(cfg, seeks, consumers, dirty_at_entry=True):
     """explore the CFG from the entry with state (node, known string constants, dirty); dirty = the file position is
     not known to be at a section start (initially, and after any consumer).  Returns {consumer node: witness path}
     for consumers reachable in a dirty state."""
     from collections import deque
-    start = (cfg.entry, frozenset(), True, False)
+    start = (cfg.entry, frozenset(), dirty_at_entry, False)
     prev = {start: None}
     dq = deque([start])
     out = {}
